@@ -392,7 +392,8 @@ theorem vars_inv_setCssText (s : Vars) (items : List VSrc) (h : VInv s) : VInv (
 /-- `removeVariable` keeps it (the delete-while-iterating loop removes the one matching item) and returns the
 reported value -/
 theorem vars_inv_remove (s : Vars) (name : Cps) (h : VInv s) :
-    VInv (vRemove s name).st ∧ (vRemove s name).out = .ok (vGet s name) := vRemove_inv s name h
+    VInv (vRemove s name).st ∧ (s.readonly = false → (vRemove s name).out = .ok (vGet s name)) :=
+  vRemove_inv s name h
 
 /- T10.7 for `setVariable`, full statement:  VInv s → VInv (vSet env s name value).st  for every name.
    FALSE on the current code when `normalize (normalize name) ≠ normalize name` (escaped backslash, `a\\g`):
